@@ -449,13 +449,16 @@ fn other_entry() -> impl Strategy<Value = Entry> {
 
 fn strategy(_tier: Tier) -> BoxedStrategy<Case> {
     prop_oneof![
-        3 => prop::collection::vec(song(true), 0..=30usize).prop_map(|entries| Case { entries, decoder: Decoder::Queue }),
-        2 => prop::collection::vec(song(true), 0..=12usize).prop_map(|entries| Case { entries, decoder: Decoder::QueueRange }),
-        1 => prop::collection::vec(song(true), 0..=2usize).prop_map(|entries| Case { entries, decoder: Decoder::QueueSongId }),
-        2 => prop::collection::vec(song(true), 0..=1usize).prop_map(|entries| Case { entries, decoder: Decoder::CurrentSong }),
-        2 => prop::collection::vec(song(false), 0..=20usize).prop_map(|entries| Case { entries, decoder: Decoder::Find }),
-        2 => prop::collection::vec(song(false), 0..=20usize).prop_map(|entries| Case { entries, decoder: Decoder::GetPlaylist }),
-        4 => prop::collection::vec(prop_oneof![3 => song(false), 2 => other_entry()], 0..=30usize)
+        12 => prop::collection::vec(song(true), 0..=30usize).prop_map(|entries| Case { entries, decoder: Decoder::Queue }),
+        1 => prop::collection::vec(song(true), 100..=600usize).prop_map(|entries| Case { entries, decoder: Decoder::Queue }),
+        8 => prop::collection::vec(song(true), 0..=12usize).prop_map(|entries| Case { entries, decoder: Decoder::QueueRange }),
+        4 => prop::collection::vec(song(true), 0..=2usize).prop_map(|entries| Case { entries, decoder: Decoder::QueueSongId }),
+        8 => prop::collection::vec(song(true), 0..=1usize).prop_map(|entries| Case { entries, decoder: Decoder::CurrentSong }),
+        8 => prop::collection::vec(song(false), 0..=20usize).prop_map(|entries| Case { entries, decoder: Decoder::Find }),
+        8 => prop::collection::vec(song(false), 0..=20usize).prop_map(|entries| Case { entries, decoder: Decoder::GetPlaylist }),
+        1 => prop::collection::vec(prop_oneof![3 => song(false), 2 => other_entry()], 100..=600usize)
+            .prop_map(|entries| Case { entries, decoder: Decoder::ListAllIn }),
+        16 => prop::collection::vec(prop_oneof![3 => song(false), 2 => other_entry()], 0..=30usize)
             .prop_map(|entries| Case { entries, decoder: Decoder::ListAllIn }),
     ]
     .boxed()
